@@ -917,15 +917,21 @@ def m_hasattr(it, args, kwargs):
 
 
 def _extreme(it, args, kwargs, pick_gt):
-    if kwargs:
+    if "key" in kwargs:
         if contains_sym(args, 3):
             raise Unsupported("max/min with key on symbolic data")
         return MISSING
-    items = it.iterate(args[0]) if len(args) == 1 else list(args)
-    if not any(is_sym(x) for x in items):
-        return MISSING
+    if len(args) == 1:
+        items = list(_lazy(it, args[0])) if isinstance(args[0], types.GeneratorType) \
+            else it.iterate(args[0])
+    else:
+        items = list(args)
     if not items:
+        if "default" in kwargs:
+            return kwargs["default"]
         raise prog(ValueError("arg is an empty sequence"))
+    if not any(is_sym(x) for x in items):
+        return it.nat(lambda: (max if pick_gt else min)(items))
     if any(isinstance(x, (SReal, float)) for x in items):
         best = zreal(items[0])
         for x in items[1:]:
